@@ -101,4 +101,17 @@ structure EvalSound (api : EvalApi) (good : Expr → Prop) : Prop where
     ∀ {N : NumOps} (call : CallFn N) (ρ : ExtOracle N) (k : Nat) (env : Env N) (σ σ' : State N) (vs : List (Val N)),
       evalE call ρ k env e σ = .ok vs σ' → vs = [first vs]
 
+/-- A stronger contract, needed by the generic lifting theorem (which wants hooks that are exact
+up to budget exhaustion, in EVERY context): a decided expression has that truthiness whenever
+it evaluates; a decided expression WITHOUT side effects evaluates — unless the budget runs out —
+successfully and leaves the state untouched. The real evaluator meets `pureTotal` only on
+expressions that allocate nothing (`{}` is "pure" for it, yet allocates a table); `litApi` meets it. -/
+structure EvalTotal (api : EvalApi) : Prop where
+  decided : ∀ (e : Expr) (b : Bool), api.isTruthy e = some b →
+    ∀ {N : NumOps} (call : CallFn N) (ρ : ExtOracle N) (k : Nat) (env : Env N) (σ σ' : State N) (vs : List (Val N)),
+      evalE call ρ k env e σ = .ok vs σ' → (first vs).truthy = b
+  pureTotal : ∀ (e : Expr) (b : Bool), api.isTruthy e = some b → api.hasSideEffects e = false →
+    ∀ {N : NumOps} (call : CallFn N) (ρ : ExtOracle N) (k : Nat) (env : Env N) (σ : State N),
+      evalE call ρ k env e σ = .timeout ∨ ∃ vs, evalE call ρ k env e σ = .ok vs σ
+
 end DarkluaModel.Rules
